@@ -88,7 +88,7 @@ def main():
           for p in ALL if p not in CHECKS]
     man = {
         'version': 1,
-        'setup_cmd': 'cd /verif && /venv/bin/python -c "import torch, numpy" && chmod +x check',
+        'setup_cmd': 'cd /verif && chmod +x check tools/*.sh && (PYTHONPATH=/verif:/repo /venv/bin/python -m ttmc.cppbuild || true)',
         'hooks': {'guard': 'TORCHTT_VERIF', 'enable': 'no source hooks: the checks import torchtt from /repo\'s working tree (PYTHONPATH) and observe it from outside (module attribute wrappers, tensor version counters)',
                   'baseline_off_cmd': 'cd /repo && /venv/bin/python -m pytest -ra -q -p no:cacheprovider --timeout=900 --continue-on-collection-errors',
                   'source_commits': [], 'add_only': True},
